@@ -3,7 +3,9 @@
    ops (see harness/src/ops_c05.rs for the driver side):
      ecdsa.sign_det     key comp msg hash rk            -> OK:r;s;hdr;v;lows
      ecdsa.sign_message key comp msg                    -> OK:r;s;hdr;v;lows
-     ecdsa.sign_k       key comp k msg hash             -> OK:r;s;hdr;v;lows
+     ecdsa.sign_k       key comp k msg hash [kcomp]     -> OK:r;s;hdr;v;lows   (kcomp: compression marker of the nonce key)
+     ecdsa.privkey_from_k key comp k kcomp msg hash pubcomp -> OK:<d> | OK:E   (sign_with_k, then private_key_from_signature_k)
+     ecdsa.verify_der   msg pub der hash                -> OK:v                (signature object without recovery info)
      ecdsa.sign_digest  key comp digest                 -> OK:r;s;hdr;v;lows
      ecdsa.sign_random  key comp msg hash rk entropy    -> OK:v;lows;range;rec   (entropy: used by the model only)
      ecdsa.sign_verify  key comp msg hash rk key2 comp2 msg2 hash2 -> OK:v
@@ -176,8 +178,23 @@ Definition run (op : string) (args : list string) : string :=
       end
   | "ecdsa.sign_k", [k; c; n; m; h] =>
       match expand k, flag_of c, expand n, expand m, hash_of h with
-      | Some kb, Some cb, Some nb, Some mb, Some hh => run_sign_k kb cb nb mb hh
+      | Some kb, Some cb, Some nb, Some mb, Some hh => run_sign_k kb cb nb mb hh true
       | _, _, _, _, _ => "BADARG"
+      end
+  | "ecdsa.sign_k", [k; c; n; m; h; kc] =>
+      match expand k, flag_of c, expand n, expand m, hash_of h, flag_of kc with
+      | Some kb, Some cb, Some nb, Some mb, Some hh, Some kcb => run_sign_k kb cb nb mb hh kcb
+      | _, _, _, _, _, _ => "BADARG"
+      end
+  | "ecdsa.privkey_from_k", [k; c; n; kc; m; h; pc] =>
+      match expand k, flag_of c, expand n, flag_of kc, expand m, hash_of h, flag_of pc with
+      | Some kb, Some cb, Some nb, Some kcb, Some mb, Some hh, Some pcb => run_privkey_from_k kb cb nb kcb mb hh pcb
+      | _, _, _, _, _, _, _ => "BADARG"
+      end
+  | "ecdsa.verify_der", [m; p; d; h] =>
+      match expand m, expand p, expand d, hash_of h with
+      | Some mb, Some pb, Some db, Some hh => run_verify_der mb pb db hh
+      | _, _, _, _ => "BADARG"
       end
   | "ecdsa.sign_digest", [k; c; d] =>
       match expand k, flag_of c, expand d with
